@@ -13,7 +13,7 @@ open Driver
 
 def dispatch (verb : String) (args : List String) (obs : String) : Option Reply :=
   match verb with
-  | "tsc" | "tsc3" | "tscshift" | "dur" | "prec" | "precs" => C11.handle verb args obs
+  | "tsc" | "tsc3" | "tscshift" | "dur" | "osdur" | "prec" | "precs" => C11.handle verb args obs
   | "tally" | "tallymt" | "prof" => C10.handle verb args obs
   | "fd" | "f64" | "bytes" | "thr" => C18.handle verb args obs
   | "natcmp" | "natcmp3" | "argcmp" | "argsort" => C16.handle verb args obs
@@ -23,6 +23,7 @@ def dispatch (verb : String) (args : List String) (obs : String) : Option Reply 
   | "reg" => Reg.handle args obs
   | "mac" => Reg.handleMac args obs
   | "ovw" => Reg.handleOvw args obs
+  | "elist" => Reg.handleElist args obs
   | _ => none
 
 def answer (line : String) : String :=
